@@ -371,6 +371,15 @@ class WithExtra4:
 
 
 @dataclass
+class WithExtra5:
+    """An as-is field and a mapping field next to an extra target whose keys may collide with their names."""
+    a: int
+    meta: Any = None
+    labels: Dict[str, Any] = field(default_factory=dict)
+    extra: Dict[str, Any] = field(default_factory=dict)
+
+
+@dataclass
 class TupHolder:
     items: Tuple[int, typing.Unpack[Tuple[str, ...]]]
 
@@ -626,6 +635,7 @@ if PM is not None:
     _t("model", PM=PM)
 # types whose failed loads carry a structured payload (allowed values, variants) the client can get hold of
 _t("model", DeepDefaults=DeepDefaults, ListDeepDefaults=List[DeepDefaults])
+_t("model", WithExtra5=WithExtra5)
 _t("payload", LitBig=LitBigT, Pixel=Pixel, ListPixel=List[Pixel], ListShade=List[Shade], DictStrLitBig=Dict[str, LitBigT],
    OptLitBig=Optional[LitBigT], ListPerm=List[Perm])
 
@@ -720,6 +730,8 @@ DATA: Dict[str, Any] = {
     "dd_m_b": collections.defaultdict(int, {"b": "y"}), "dd_m_a": collections.defaultdict(int, {"a": 1}),
     "dd_inner": collections.defaultdict(list, {"tags": ["t"]}),
     "deep_full": {"a": 2, "cfg": {"z": [{"y": 3}]}, "long": {"q": [1]}}, "l_deep": [{}, {"a": 1}, {"cfg": {}}],
+    "withextra5": {"a": 1, "meta": {"k": [1]}, "labels": {"env": {"name": "prod"}}, "zzz": [7], "yyy": {"k": [1]}},
+    "withextra5_plain": {"a": 1, "extra": {"meta": {"s": [1]}}},
     "sRed": "red", "sGrey": "grey", "sPink": "pink", "pixel": {"color": "grey", "shade": "dark", "tint": 1, "perm": 3},
     "pixel_min": {"color": "red"}, "pixel_bad": {"color": "pink", "shade": "nope", "tint": 77, "perm": 64},
     "pixel_bad2": {"color": "black", "shade": "dark", "tint": "x"},
@@ -776,6 +788,7 @@ BATTERY: Dict[str, List[str]] = {
     "FlagGap": ["i1"], "UserFG": ["m_a"], "GroupFG": ["m_a"], "ListFlagGap": ["l1"],
     "PM": ["pm"],
     "DeepDefaults": ["empty_d", "m_a", "deep_full"], "ListDeepDefaults": ["l_deep"],
+    "WithExtra5": ["withextra5", "withextra5_plain", "withextra"],
     "LitBig": ["sRed", "sGrey", "sPink"], "OptLitBig": ["sGrey", "none", "sPink"], "Pixel": ["pixel", "pixel_min", "pixel_bad", "pixel_bad2"],
     "ListPixel": ["lpixel", "lpixel_bad"], "ListShade": ["lshade", "lshade_bad"], "DictStrLitBig": ["d_lit", "d_lit_bad"],
     "ListPerm": ["lperm", "lperm_bad"],
@@ -882,6 +895,10 @@ OBJECTS: Dict[str, Any] = {
     "o_dsrcinner": lambda: {"p": SrcInner([1]), "q": SrcInner([2], {"k": [3]})},
     "o_deep": lambda: DeepDefaults(), "o_deep_full": lambda: DeepDefaults(1, {"z": [{"y": 3}]}, {"q": [1]}),
     "o_ldeep": lambda: [DeepDefaults(), DeepDefaults(2, {}, {})],
+    # extra data whose keys collide with the model's own (as-is / mapping) fields
+    "o_withextra5": lambda: WithExtra5(1, {"k": 1}, {"env": {"name": "prod"}},
+                                       {"meta": {"source": "api"}, "labels": {"env": {"region": "eu"}}, "other": [5]}),
+    "o_withextra5_nc": lambda: WithExtra5(2, [1], {"env": [1]}, {"zzz": [7]}),
     "o_grey": lambda: "grey", "o_pixel": lambda: Pixel("grey", Shade.DARK, Color.G, Perm.RD | Perm.WR),
     "o_lpixel": lambda: [Pixel("red"), Pixel("white")], "o_lshade": lambda: [Shade.DARK], "o_d_lit": lambda: {"k": "blue"},
     "o_lperm": lambda: [Perm.RD, Perm.RD | Perm.WR],
@@ -969,6 +986,7 @@ DUMP_BATTERY: Dict[str, List[str]] = {
     "Unsupported": ["o_unsupported"], "FwdUser": ["o_fwd", "o_fwd_none"], "CallableT": ["o_i1"], "ListUnsupported": ["o_l01"],
     "PM": ["o_pm"],
     "DeepDefaults": ["o_deep", "o_deep_full"], "ListDeepDefaults": ["o_ldeep"],
+    "WithExtra5": ["o_withextra5", "o_withextra5_nc"],
     "LitBig": ["o_grey", "o_a"], "OptLitBig": ["o_grey", "o_none"], "Pixel": ["o_pixel"], "ListPixel": ["o_lpixel"],
     "ListShade": ["o_lshade"], "DictStrLitBig": ["o_d_lit"], "ListPerm": ["o_lperm"],
 }
@@ -1080,6 +1098,7 @@ RECIPES: Dict[str, Any] = {
                                  name_mapping(WithExtra2, extra_in=["e1", "e2"], extra_out=["e1", "e2"]),
                                  name_mapping(WithExtra3, extra_in=["e1", "e2"], extra_out=["e1", "e2"]),
                                  name_mapping(WithExtra4, extra_in=["e1", "e2"], extra_out=["e1", "e2"]),
+                                 name_mapping(WithExtra5, extra_in="extra", extra_out="extra"),
                                  name_mapping(KwModel, extra_in=ExtraKwargs())],
     "nm_extra_forbid_all": lambda: [name_mapping(extra_in=ExtraForbid())],
     "chain_node_children": lambda: [loader(P[Outer1].node.children, _reverse, Chain.LAST)],
@@ -1117,7 +1136,7 @@ RECIPE_TYPES: Dict[str, List[str]] = {
     "scoped_linked_head": ["LinkedInt", "LinkedStr", "LinkedBool"], "enum_by_name": ["Color", "Status", "Shade", "LitColorR", "LitShade"],
     "enum_by_name_all": ["Color", "Status", "Shade", "Perm"],
     "flag_names": ["Perm"], "validator_inner": ["Inner", "Outer1", "Outer2"], "dumper_scoped": ["Node", "Holder", "ListNode"],
-    "nm_as_list": ["M1", "ListM1", "M2"], "nm_extra_collect": ["WithExtra", "KwModel", "WithExtra2", "WithExtra3", "WithExtra4", "WithExtra4"], "nm_extra_forbid": ["Inner", "Outer1"],
+    "nm_as_list": ["M1", "ListM1", "M2"], "nm_extra_collect": ["WithExtra", "KwModel", "WithExtra2", "WithExtra3", "WithExtra4", "WithExtra4", "WithExtra5", "WithExtra5"], "nm_extra_forbid": ["Inner", "Outer1"],
     "asis_m2": ["M2", "ListM2", "M1"], "unsupported_fix": ["Unsupported", "ListUnsupported", "CallableT"],
     "nm_snake_only": ["SnakeCase"], "nm_camel": ["SnakeCase", "M1"], "nm_camel_shared": ["SnakeCase", "RA", "RB"],
     "chain_int_last": ["int", "M1", "ListInt", "GInt"], "chain_int_shared": ["int", "M1", "ListInt"],
